@@ -14,8 +14,10 @@ stdout: JSON list, one entry per job:
                                                  names anonymised, prefixed by the kind of statement it belongs to, e.g.
                                                  `Delete:_[3]` for `del tokens[3]`: the crash SITE, stable under renaming
                                                  locals / moving / re-indenting / re-wrapping code
-   ["timeout", file, function, lineno, expr]     signal.alarm fired; the innermost jmc frame that was executing then
-                                                 (same site notation as for "internal")
+   ["timeout", file, function, lineno, expr, stack]
+                                                 signal.alarm fired; the innermost jmc frame that was executing then
+                                                 (same site notation as for "internal") and [file, function] of the
+                                                 (at most 40 innermost) jmc frames on the stack, outermost first
  a job {"canary": seconds} does not call the compiler: it spins for that long inside the same alarm bracket and must
  come back as ["timeout", ...] - the self-test of the hang detector (c13.py runs one in every batch).
 stdin {"op": "builtins"}: stdout = the registry of built-in functions of the tree under test
@@ -97,16 +99,20 @@ def failing_expr(code, lasti, lineno) -> str:
         return "?"
 
 
-def innermost_jmc_frame(tb):
+def innermost_jmc_frame(tb, stack=None):
     """[file, qualified function name, line, failing expression] of the innermost frame that belongs to jmc.
     The frames of the traceback are cleared (their locals may hold gigabytes when the job ran into the memory limit)
-    BEFORE the source of the frame is parsed."""
+    BEFORE the source of the frame is parsed.  `stack` (a list) receives [file, function] of every jmc frame, outermost first."""
     best = None
     top = tb
     while tb is not None:
         code = tb.tb_frame.f_code
         if "/jmc/" in code.co_filename.replace("\\", "/"):
             best = (code, tb.tb_lasti, tb.tb_lineno)
+            if stack is not None:
+                fr = [os.path.basename(code.co_filename), getattr(code, "co_qualname", code.co_name)]
+                if not stack or stack[-1] != fr:
+                    stack.append(fr)
         tb = tb.tb_next
     try:
         traceback.clear_frames(top)
@@ -166,8 +172,9 @@ def main():
         def classify(e):
             if isinstance(e, _Timeout):
                 reserve.clear()
-                fr = innermost_jmc_frame(e.__traceback__)
-                return ["timeout", fr[0], fr[1], fr[2], fr[3]]
+                stack = []
+                fr = innermost_jmc_frame(e.__traceback__, stack)
+                return ["timeout", fr[0], fr[1], fr[2], fr[3], stack[-40:]]
             if isinstance(e, EXCEPTIONS):
                 return ["diag", type(e).__name__]
             if isinstance(e, MemoryError):
